@@ -52,15 +52,15 @@ func TestVerifDriver(t *testing.T) {
 	}
 	route := NewSentinelRouteMiddleware()
 	VRun(t, "go-zero", []VCase{
-		{Ep: "SentinelMiddleware", Variant: "default", Wraps: true, Fb: "default", Res: path("d", "GET:"), Send: mk("d")},
-		{Ep: "SentinelMiddleware", Variant: "extractor", Options: []string{"WithResourceExtractor"}, Wraps: true, Fb: "default",
+		{Ep: "SentinelMiddleware", Side: "server", Variant: "default", Wraps: true, Fb: "default", Res: path("d", "GET:"), Send: mk("d")},
+		{Ep: "SentinelMiddleware", Side: "server", Variant: "extractor", Options: []string{"WithResourceExtractor"}, Wraps: true, Fb: "default",
 			Res: path("e", "custom:"), Send: mk("e", extract)},
-		{Ep: "SentinelMiddleware", Variant: "fallback", Options: []string{"WithBlockFallback"}, Wraps: true, Fb: "custom",
+		{Ep: "SentinelMiddleware", Side: "server", Variant: "fallback", Options: []string{"WithBlockFallback"}, Wraps: true, Fb: "custom",
 			Res: path("f", "GET:"), Send: mk("f", fallback)},
-		{Ep: "SentinelMiddleware", Variant: "extractor+fallback", Options: []string{"WithResourceExtractor", "WithBlockFallback"}, Wraps: true, Fb: "custom",
+		{Ep: "SentinelMiddleware", Side: "server", Variant: "extractor+fallback", Options: []string{"WithResourceExtractor", "WithBlockFallback"}, Wraps: true, Fb: "custom",
 			Res: path("ef", "custom:"), Send: mk("ef", extract, fallback)},
-		{Ep: "NewSentinelRouteMiddleware", Variant: "default", Wraps: true, Fb: "default", Res: path("r", "GET:"), Send: send("r", route.Handle(handler))},
-		{Ep: "SentinelRouteMiddleware.Handle", Variant: "default", Wraps: true, Fb: "default", Res: path("rh", "GET:"),
+		{Ep: "NewSentinelRouteMiddleware", Side: "server", Variant: "default", Wraps: true, Fb: "default", Res: path("r", "GET:"), Send: send("r", route.Handle(handler))},
+		{Ep: "SentinelRouteMiddleware.Handle", Side: "server", Variant: "default", Wraps: true, Fb: "default", Res: path("rh", "GET:"),
 			Send: send("rh", (&SentinelRouteMiddleware{}).Handle(handler))},
 	})
 }
